@@ -195,4 +195,50 @@ def rule_sizewrites(ctx):
     return r
 
 
-RULES = [rule_cap, rule_sizewrites]
+def rule_siblings(ctx):
+    r = RuleResult("C20-SIBLING", "compress and its cost estimate agree on what is truncated", 3)
+    hg = ctx.p.cls(C.HYPERGRAPH, "HyperGraph")
+    # (a) both group only non-output edges
+    for name in ("compress", "neighborhood_compress_cost"):
+        f = hg.methods.get(name)
+        C.require(f is not None, f"HyperGraph.{name} not found")
+        key = ctx.key(f, "C20-SIBLING", "output-excluded")
+        appends = [n for n in walk_local(f.node) if isinstance(n, ast.Call)
+                   and isinstance(n.func, ast.Attribute) and n.func.attr == "append"
+                   and "incidences" in ast.unparse(n.func.value)]
+        C.require(appends, f"{name}: grouping of edges by incident nodes not recognised")
+        ok = all(any("not in self.output" in C.unparse(i.test) and t
+                     for i, t in C.enclosing_ifs(f, C.enclosing_stmt(f, a))) for a in appends)
+        if ok:
+            r.ok(key, f.loc, "output indices are never candidates for fusion")
+        else:
+            r.violation(key, C.loc(f, appends[0]), "edges are grouped for fusion without "
+                        "excluding output indices: an output index shared by several tensors is "
+                        "fused with (or swallowed by) the bonds between them even when nothing "
+                        "needs truncating")
+    # (b) a compression cost is charged iff compress would truncate (size > chi)
+    f = hg.methods.get("neighborhood_compress_cost")
+    key = ctx.key(f, "C20-SIBLING", "threshold")
+    cmps = [n for n in walk_local(f.node) if isinstance(n, ast.Compare) and len(n.ops) == 1
+            and any(_is_chi(x, {"chi"}) for x in (n.left, n.comparators[0]))]
+    C.require(cmps, "threshold test of neighborhood_compress_cost not recognised")
+    for c in cmps:
+        op = type(c.ops[0])
+        if _is_chi(c.left, {"chi"}):
+            op = {ast.Lt: ast.Gt, ast.Gt: ast.Lt, ast.LtE: ast.GtE, ast.GtE: ast.LtE}.get(op, op)
+        par = f.module.parents.get(c)
+        skip = isinstance(par, ast.If) and any(isinstance(x, ast.Continue) for x in par.body)
+        # normalised: charge iff size > chi   <=>   skip iff size <= chi
+        good = (not skip and op is ast.Gt) or (skip and op is ast.LtE)
+        if good:
+            r.ok(key, C.loc(f, c), "cost charged iff the multibond exceeds chi (the case in which "
+                 "compress truncates)")
+        else:
+            r.violation(key, C.loc(f, c), f"`{C.unparse(c)}` charges a compression cost for a "
+                        "bond of size exactly chi, which compress (min(size, chi)) leaves "
+                        "untouched: with the cap equal to the largest bond the estimate exceeds "
+                        "the exact flops")
+    return r
+
+
+RULES = [rule_cap, rule_sizewrites, rule_siblings]
